@@ -267,11 +267,11 @@ fn scenario<const N: usize>(evs: [A; N], per_doc: bool, free: Free) {
     kani::cover!(true, "whole stream within budget");
 }
 
-const S_KEYSEQ: [A; 12] = [A::StreamStart, A::DocStart, A::Map, A::Seq, A::Sc(1), A::SeqEnd, A::Merge, A::Sc(3), A::Sc(1), A::MapEnd, A::DocEnd, A::StreamEnd];
-const S_KEYMAP: [A; 16] = [A::StreamStart, A::DocStart, A::Map, A::Map, A::Sc(1), A::Sc(1), A::MapEnd, A::Sc(1), A::Merge, A::Map, A::Sc(1), A::Sc(1), A::MapEnd, A::MapEnd, A::DocEnd, A::StreamEnd];
-const S_ANCHORS: [A; 15] = [A::StreamStart, A::DocStart, A::Map, A::Sc(1), A::SeqA(1), A::Sc(1), A::ScA(2), A::SeqEnd, A::Sc(1), A::Alias(1), A::QuotedMerge, A::Alias(1), A::MapEnd, A::DocEnd, A::StreamEnd];
-const S_TWODOCS: [A; 14] = [A::StreamStart, A::DocStart, A::Map, A::Sc(1), A::ScA(1), A::MapEnd, A::DocEnd, A::DocStart, A::Map, A::Sc(1), A::ScA(1), A::MapEnd, A::DocEnd, A::StreamEnd];
-const S_ABANDONED: [A; 15] = [A::StreamStart, A::DocStart, A::Map, A::Sc(1), A::Seq, A::Seq, A::DocStart, A::Map, A::Sc(1), A::Seq, A::Sc(1), A::SeqEnd, A::MapEnd, A::DocEnd, A::StreamEnd];
+const S_KEYSEQ: [A; 8] = [A::Map, A::Seq, A::Sc(1), A::SeqEnd, A::Merge, A::Sc(3), A::Sc(1), A::MapEnd];
+const S_KEYMAP: [A; 10] = [A::Map, A::Map, A::Sc(1), A::Sc(1), A::MapEnd, A::Sc(1), A::Merge, A::Map, A::MapEnd, A::MapEnd];
+const S_ANCHORS: [A; 11] = [A::Map, A::Sc(1), A::SeqA(1), A::ScA(2), A::SeqEnd, A::Sc(1), A::Alias(1), A::QuotedMerge, A::Alias(1), A::MapEnd, A::DocEnd];
+const S_TWODOCS: [A; 10] = [A::DocStart, A::Map, A::Sc(1), A::ScA(1), A::MapEnd, A::DocStart, A::Map, A::Sc(1), A::ScA(1), A::MapEnd];
+const S_ABANDONED: [A; 10] = [A::DocStart, A::Map, A::Sc(1), A::Seq, A::Seq, A::DocStart, A::Map, A::Seq, A::SeqEnd, A::MapEnd];
 const S_ALLCONTENT: [A; 10] = [A::StreamStart, A::DocStart, A::Sc(3), A::DocEnd, A::DocStart, A::Seq, A::Sc(0), A::SeqEnd, A::DocEnd, A::StreamEnd];
 
 // `? [a] : <<` then `other: x`  - a container in KEY position, then `<<` in VALUE position
